@@ -45,3 +45,48 @@ structure Entry where
 deriving Repr, DecidableEq, Inhabited
 
 end BS
+
+namespace BS
+
+/-! ### a linear-time `toLines` for compiled code (`@[csimp]`: the compiler uses it in place
+of the quadratic defining equation; the replacement is justified by the theorem below, checked
+by the kernel like any other) -/
+
+def toLinesGo (ls : Nat) : Nat → Bytes → List Bytes → List Bytes
+  | 0, _, acc => acc.reverse
+  | fuel+1, b, acc =>
+    let l := b.take ls
+    if l.length < ls then acc.reverse else toLinesGo ls fuel (b.drop ls) (l :: acc)
+
+def toLinesFast (ls : Nat) (b : Bytes) : List Bytes :=
+  if ls = 0 then [] else toLinesGo ls (b.length + 1) b []
+
+theorem toLinesGo_eq (ls : Nat) (hls : 0 < ls) : ∀ (fuel : Nat) (b : Bytes) (acc : List Bytes), b.length < fuel →
+    toLinesGo ls fuel b acc = acc.reverse ++ toLines ls b := by
+  intro fuel
+  induction fuel with
+  | zero => intro b acc h; omega
+  | succ fuel ih =>
+    intro b acc h
+    rw [toLinesGo, toLines]
+    simp only [List.length_take]
+    by_cases hb : b.length < ls
+    · have h1 : min ls b.length < ls := by omega
+      have h2 : ls = 0 ∨ b.length < ls := Or.inr hb
+      simp [h1, h2]
+    · have h1 : ¬ min ls b.length < ls := by omega
+      have h2 : ¬ (ls = 0 ∨ b.length < ls) := by omega
+      simp only [h1, h2, if_false, dite_false]
+      rw [ih (b.drop ls) (b.take ls :: acc) (by simp only [List.length_drop]; omega)]
+      simp
+
+@[csimp] theorem toLines_eq_fast : @toLines = @toLinesFast := by
+  funext ls b
+  unfold toLinesFast
+  by_cases h : ls = 0
+  · subst h; rw [toLines]; simp
+  · simp only [h, if_false]
+    rw [toLinesGo_eq ls (by omega) _ b [] (by omega)]
+    simp
+
+end BS
